@@ -296,8 +296,90 @@ func replayMain(t *testing.T) {
 		os.Exit(0)
 	}
 	fmt.Printf("REPLAY: rule=%s shape=%s\n%s\n", v.Rule, v.ShapeKey(), v.Detail)
+	if os.Getenv("VERIF_CORPUS") != "" {
+		if k := matchKnown(loadKnown(), v); k != nil {
+			fmt.Printf("CORPUS-KNOWN %s\n", k.What)
+			os.Exit(0)
+		}
+	}
 	fmt.Printf("VIOLATION property=%s replay=%s\n", tr.Prop, path)
 	os.Exit(1)
+}
+
+// ---------------------------------------------------------------- regression corpus
+
+// runCorpus replays every trace under corpus/<property>/ (minimised traces of defects that
+// were repaired and of seeded changes the check once caught: none of them violates the
+// property on a correct tree), each in a fresh process. A violation is reported with the
+// corpus file as its replay file. Returns the number of violating traces.
+func runCorpus(p *PropDef, total *workerStats) int {
+	files, _ := filepath.Glob(filepath.Join(verifDir(), "corpus", p.ID, "*.json"))
+	sort.Strings(files)
+	type res struct {
+		out  string
+		code int
+	}
+	out := make([]res, len(files))
+	sem := make(chan bool, runtime.NumCPU())
+	var wg sync.WaitGroup
+	for i, f := range files {
+		wg.Add(1)
+		sem <- true
+		go func(i int, f string) {
+			defer wg.Done()
+			defer func() { <-sem }()
+			cmd := exec.Command(os.Args[0], "-test.run", "^TestSim$", "-test.timeout", "0")
+			cmd.Env = append(os.Environ(), "VERIF_ROLE=replay", "VERIF_REPLAY="+f, "VERIF_CORPUS=1", "GOMAXPROCS=4")
+			b, err := cmd.CombinedOutput()
+			code := 0
+			if err != nil {
+				code = -1
+				if ee, ok := err.(*exec.ExitError); ok {
+					code = ee.ExitCode()
+				}
+			}
+			out[i] = res{string(b), code}
+		}(i, f)
+	}
+	wg.Wait()
+	exit := 0
+	for i, f := range files {
+		r := out[i]
+		total.Probes["corpus_traces_replayed"]++
+		switch {
+		case r.code == 0 && strings.Contains(r.out, "CORPUS-KNOWN "):
+			total.Known[strings.TrimSpace(strings.SplitN(strings.SplitN(r.out, "CORPUS-KNOWN ", 2)[1], "\n", 2)[0])]++
+		case r.code == 0:
+		case r.code == 1 && strings.Contains(r.out, "VIOLATION property="+p.ID):
+			rule := ""
+			for _, l := range strings.Split(r.out, "\n") {
+				if strings.HasPrefix(l, "REPLAY: rule=") {
+					rule = strings.TrimPrefix(l, "REPLAY: ")
+				}
+			}
+			fmt.Printf("violation: %s (regression corpus trace %s)\n", rule, filepath.Base(f))
+			fmt.Printf("VIOLATION property=%s replay=%s\n", p.ID, f)
+			exit++
+		default:
+			// the process died: a crash or hang is a violation only where crash-freedom is the property
+			if p.OwnsCrash && r.code != 2 {
+				v := &Violation{Prop: p.ID, Rule: "fatal", Shape: map[string]string{"kind": fatalKind(r.out)}}
+				if k := matchKnown(loadKnown(), v); k != nil {
+					total.Known[k.What]++
+					continue
+				}
+				fmt.Printf("violation: rule=fatal shape=%s (regression corpus trace %s)\n  %s\n", v.ShapeKey(), filepath.Base(f), firstLine(headTail(r.out, 300, 300)))
+				fmt.Printf("VIOLATION property=%s replay=%s\n", p.ID, f)
+				exit++
+			} else if r.code == 2 {
+				fmt.Fprintf(os.Stderr, "harness: corpus trace %s could not be replayed (exit %d):\n%s\n", f, r.code, tail(r.out, 1500))
+				os.Exit(2)
+			} else {
+				total.IncPanics++
+			}
+		}
+	}
+	return exit
 }
 
 // ---------------------------------------------------------------- runner
@@ -460,6 +542,7 @@ func runnerMain(t *testing.T) {
 	total := &workerStats{Probes: map[string]int{}, Faults: map[string]int{}, Known: map[string]int{}}
 	sigset := map[uint64]bool{}
 	var viols []*Trace
+	corpusExit := runCorpus(p, total)
 	incidentalFatal := 0
 	for i := range results {
 		if results[i].stats != nil {
@@ -521,6 +604,10 @@ func runnerMain(t *testing.T) {
 		}
 		fmt.Printf("VIOLATION property=%s replay=%s\n", pid, path)
 		exit = 1
+	}
+	if corpusExit != 0 {
+		exit = 1
+		nv += corpusExit
 	}
 	for _, k := range sortedKeys(total.Known) {
 		fmt.Printf("KNOWN-FINDING: property=%s %s (matched %d runs)\n", pid, k, total.Known[k])
